@@ -642,6 +642,20 @@ def name_parse(text):
     return {'nums': [int(g[k]) for k in ('size0', 'ptrneed', 'sizeadd', 'labneed', 'poslab', 'pplab', 'posptr')],
             'ops': [g[k] for k in ('sizeop', 'ptrop', 'backop', 'labop', 'maxop')]}
 
+# ------------------------------------------------------------------ name.rs: the two writers of a name
+def name_write(text):
+    W = 'name.rs: Name::plain_append / compress_append'
+    lab = r'out\.write_all\(&\[label\.len\(\)as u8\]\)\?;out\.write_all\(&label\.data\)\?;'
+    b = fn_body(text, 'plain_append', W)
+    if not re.match(r'for label in self\.iter\(\)\{' + lab + r'\}out\.write_all\(&\[0\]\)\?;Ok\(\(\)\)$', b): refuse(W, f"plain_append: {b[:200]}")
+    b = fn_body(text, 'compress_append', W)
+    m = re.match(r'for\(i,label\)in self\.iter\(\)\.enumerate\(\)\{match name_refs\.entry\(&self\.labels\[i\.\.\]\)\{'
+                 r'std::collections::hash_map::Entry::Occupied\(e\)=>\{let p=\*e\.get\(\)as u16;out\.write_all\(&\(p\|(\w+)\)\.to_be_bytes\(\)\)\?;return Ok\(\(\)\);\}'
+                 r'std::collections::hash_map::Entry::Vacant\(e\)=>\{let position=out\.stream_position\(\)\?as usize;if position(<=|<|>=|>)(\w+)\{e\.insert\(position\);\}' + lab + r'\}\}\}'
+                 r'out\.write_all\(&\[0\]\)\?;Ok\(\(\)\)$', b)
+    if not m: refuse(W, f"compress_append: {b[:300]}")
+    return [m.group(1), m.group(2), m.group(3)]
+
 # ------------------------------------------------------------------ name.rs: the relations between names
 def name_relations(text):
     W = 'name.rs: is_link_local / is_subdomain_of / without'
@@ -795,6 +809,7 @@ def generate(repo):
         return into_records(files['inst'], files['conv'])
     ir = attempt('mdns.into_records', _ir)
     npz = attempt('name.parse', need('name', name_parse))
+    nwr = attempt('name.write', need('name', name_write))
     files['modrs'] = read('simple-dns/src/dns/mod.rs')
     qo = attempt('codes.question_codes_out', need('modrs', qcodes_out))
     mw = attempt('packet.message_writer', need('p', message_writer))
@@ -924,6 +939,8 @@ def generate(repo):
           "/-- the loop of `Name::parse`: [initial name_size, octets a pointer needs, what a label adds to name_size besides its length, octets a label needs besides its length, what a label advances `*position` / `pointer_position` by besides its length, what the first pointer advances `*position` by]; the comparisons [name_size ? MAX_NAME_LENGTH, pointer end ? data.len(), pointer ? pointer_position, label end ? data.len(), len ? MAX_LABEL_LENGTH] (each one leads to an error) -/",
           "def nameParseNums : Option (List Nat) := " + ('none' if npz is None else 'some [' + ', '.join(str(x) for x in npz['nums']) + ']'),
           "def nameParseOps : Option (List String) := " + ('none' if npz is None else 'some ' + strs(npz['ops'])),
+          "/-- `Name::compress_append`: the mask OR-ed into a pointer, the comparison and the bound under which a position is entered into the table (`plain_append` and the rest of the body have the one recognised shape) -/",
+          "def nameWrite : Option (List String) := " + ('none' if nwr is None else 'some ' + strs(nwr)),
           "/-- `From<QTYPE> for u16` and `From<QCLASS> for u16` (the codes the writers emit): (variant, code; `none` for the arm that converts the wrapped TYPE / CLASS) -/",
           "def qtypeToCode : Option (List (String × Option Nat)) := " + ('none' if qo is None else 'some [' + ', '.join(f'({q(a)}, {"none" if b == "inner" else "some " + b})' for a, b in qo['QTYPE']) + ']'),
           "def qclassToCode : Option (List (String × Option Nat)) := " + ('none' if qo is None else 'some [' + ', '.join(f'({q(a)}, {"none" if b == "inner" else "some " + b})' for a, b in qo['QCLASS']) + ']'),
